@@ -149,7 +149,8 @@ def _hdr_check(prop, fams, prefixes, count_q, count_t, rule, extra_cmds=None, le
         for ct in (1, 2):
             if not thorough and ct == 1 and ci >= 3 and prop != "C09":
                 continue
-            L = (lens or [37, 5, 100])[ci % 3]
+            LL = lens or [37, 5, 100]
+            L = LL[ci % len(LL)]
             cmds.append(hdr_cmd(be, k, m, hd, ct, L, _seed_of(chk, ci * 10 + ct), fams, count_t if thorough else count_q))
     v, files = _run(chk, cmds, prop, prefixes + ["fault", "create failed", "encode failed"], max_lines=500)
     c = v.counts or [0] * 14
@@ -180,7 +181,7 @@ def c09():
 def c10():
     def extra(chk, thorough):
         return ["crcalt %d 300 %d" % (2000 if thorough else 400, _seed_of(chk, 5))]
-    chk, v, files, rule = _hdr_check("C10", 64 | 16, ["C10"], 40, 200, "", extra_cmds=extra, lens=[13, 60, 100])
+    chk, v, files, rule = _hdr_check("C10", 64 | 16, ["C10"], 40, 200, "", extra_cmds=extra, lens=[13, 60, 0, 100, 3])
     thorough = chk.tier == "thorough"
     # the historical CRC against its bitwise definition on the production configuration too (implementation-defined shifts)
     vg, fg = _run(chk, ["crcalt %d 300 %d" % (400, _seed_of(chk, 6))], "C10-gcc", ["C10", "fault"], variant="gcc")
@@ -188,7 +189,7 @@ def c10():
     for li, leg in enumerate(LEGACY_VALUES):
         cmds = []
         for ci, (be, k, m, hd) in enumerate(wire_configs(thorough)):
-            for L in ([0, 1, 17, 64, 131] if thorough else [1 + ci, 40 + li]):
+            for L in ([0, 1, 17, 64, 131] if thorough else [0 if (ci + li) % 3 == 0 else 1 + ci, 40 + li]):
                 # ... and every fragment rebuilt by reconstruct while the switch has the OTHER meaning (RecB events)
                 other = "-" if leg not in (None, "", "0") else ("1" if (ci + li) % 2 else "yes")
                 cmds.append(enc_cmd(be, k, m, hd, 2, L, _seed_of(chk, L + ci), 1) + " " + other)
@@ -233,7 +234,7 @@ def c12():
         for ci, (be, k, m, hd) in enumerate(cfgs):
             cmds.append(enc_cmd(be, k, m, hd, 1 + ci % 2, 20 + ci, _seed_of(chk, ci), 2))
         return cmds
-    chk, v, files, rule = _hdr_check("C12", 16 | 2 | 64, ["C12"], 256, 256, "", extra_cmds=extra)
+    chk, v, files, rule = _hdr_check("C12", 16 | 2 | 64 | 32 | 8, ["C12"], 256, 256, "", extra_cmds=extra)
     return _finish_codes(chk,
         "instances I x fragments of instances J (same / different backend and shape; intact, payload damaged, mismatch flag set), "
         "single-field edits re-sealed with a correct metadata CRC (index in {2^32-1, 0, n-1, n, n+1, 2^31, 2^32-2, 33}; backend id "
